@@ -152,6 +152,9 @@ type artModule struct {
 func (m *artModule) Name() string                   { return m.name }
 func (m *artModule) InitContext(c pgs.BuildContext) { m.ctx = c }
 func (m *artModule) Execute(map[string]pgs.File, map[string]pgs.Package) []pgs.Artifact {
+	if len(m.arts)%2 == 1 { // every other case: through the ModuleBase helpers, as module authors do
+		return viaModuleBase(m.arts)
+	}
 	return m.arts
 }
 
